@@ -301,7 +301,7 @@ class PartList(Model):
         return self.k
 
 
-@unit('C09', '_load_trajectory.location-lemma-any-number-of-parts', [TS + '._load_trajectory'])
+@unit('C09', '_load_trajectory.location-lemma-any-number-of-parts', [TS + '._load_trajectory'], replay='contracts.C09:replay_location')
 def location_lemma(h):
     I = h.I
     install_store_models(h, I)
@@ -398,6 +398,67 @@ def location_lemma(h):
     h.ensure('cached-under-the-requested-index', to_z3(key) == i)
     h.ensure('loads-the-row-of-the-part-containing-the-index',
              z3.And(jz >= 0, jz < k, start <= i, i < CUM(jz), to_z3(row) == i - start))
+
+
+def replay_location(payload):
+    """Native: seven trajectories in a merged base store cut as 2 + 5 and a separately merged associated store cut as 4 + 3
+    (written twice with different cuts, base files of one cut and associated files of the other merged): every index must
+    give base and associated values of the same trajectory."""
+    import os
+    import shutil
+    import tempfile
+    from AEIC.storage import Dimension as D, Dimensions, FieldMetadata, FieldSet
+    from AEIC.trajectories import TrajectoryStore
+    from contracts.C07 import _mk
+    if not FieldSet.known('c09_loc_extra'):
+        FieldSet('c09_loc_extra', c09_loc_x=FieldMetadata(dimensions=Dimensions(D.TRAJECTORY), description='', units=''))
+    tmp = tempfile.mkdtemp(prefix='c09l-', dir=os.environ.get('VERIF_SCRATCH'))
+    problems = []
+
+    class Extra:
+        FIELD_SETS = [FieldSet.from_registry('c09_loc_extra')]
+
+        def __init__(self, t):
+            self.c09_loc_x = float(t.starting_mass) + 0.5
+
+    def write(tag, cuts):
+        bases, assocs, pos = [], [], 0
+        for j, n in enumerate(cuts):
+            b, a = os.path.join(tmp, f'{tag}_b{j}.nc'), os.path.join(tmp, f'{tag}_x{j}.nc')
+            TrajectoryStore.active_in_thread = None
+            with TrajectoryStore.create(base_file=b) as ts:
+                for i in range(pos, pos + n):
+                    ts.add(_mk(i, n=3 + i))          # every trajectory has its own number of points
+            TrajectoryStore.active_in_thread = None
+            with TrajectoryStore.open(base_file=b) as ts:
+                ts.create_associated(a, ['c09_loc_extra'], Extra)
+            bases.append(b)
+            assocs.append(a)
+            pos += n
+        return bases, assocs
+    try:
+        bases, _ = write('p', [2, 5])
+        _, assocs = write('q', [4, 3])
+        mb, ma = os.path.join(tmp, 'base.aeic-store'), os.path.join(tmp, 'extra.aeic-store')
+        TrajectoryStore.active_in_thread = None
+        TrajectoryStore.merge(mb, bases)
+        TrajectoryStore.active_in_thread = None
+        TrajectoryStore.merge(ma, assocs)
+        TrajectoryStore.active_in_thread = None
+        with TrajectoryStore.open(base_file=mb, associated_files=[ma]) as ts:
+            for i in range(7):
+                try:
+                    t = ts[i]
+                    if float(t.starting_mass) != 1000.0 + i or float(t.c09_loc_x) != 1000.5 + i:
+                        problems.append(f'merged[{i}]: base values of trajectory {int(t.starting_mass) - 1000}, associated values of trajectory {t.c09_loc_x - 1000.5:g}')
+                except Exception as e:   # noqa
+                    problems.append(f'merged[{i}]: {type(e).__name__}: {e}')
+    except Exception as e:   # noqa
+        problems.append(f'scenario failed: {type(e).__name__}: {e}')
+    finally:
+        TrajectoryStore.active_in_thread = None
+        shutil.rmtree(tmp, ignore_errors=True)
+    return dict(reproduced=bool(problems), observed=problems[:4], required='i-th trajectory = i-th input trajectory, including data in separately merged associated stores')
 
 
 # ------------------------------------------------------------------------------------------------
